@@ -4,6 +4,9 @@ import Hgxv.Model.C15
   `setu <ratss>` / `setw <ratss>` / `data <natss> <rats>`          -> `ok`
   `qf` `bf` `qfsum` `bfsum` `esum` `pois`                          -> values of the linear operations / Poisson parameters
   `consts <N> <nats ds>`                                           -> `C;summands;C';C'';kappas` or `nonfinite`
+  `cbig <N> <nats ds>`                                             -> `C;C';C''` (the three sums only; any number of sizes) or `nonfinite`
+  `kap <N> <nats ds>`                                              -> `kappaProd N d` for every d: the normalisation from the two products of
+                                                                      `log_binomial` (exact naturals; thousands of nodes), `rej` unless 2 <= d <= N
   `expdeg <nats ds>` / `expavg <nats ds>` / `dimseq <nats ds>`     -> expected statistics
   `wupd <ratss r>` / `uupd <ratss r>`                              -> updated array or `nonfinite`
   `fit <fixedU> <fixedW> <Dsup|-1> <ratss ru> <ratss rw> <sqrtC> <n> <tol|none> <every>`
@@ -114,6 +117,16 @@ def step (s : St) : List String → St × String
         (s, showRat (C ds) ++ ";" ++ showRats (ds.map Cterm) ++ ";" ++ showRat (Cprime n ds) ++ ";"
             ++ showRat (Csecond n ds) ++ ";" ++ showRats (ds.map (kappa n)))
       else (s, "nonfinite")
+    | _, _ => (s, "bad-op")
+  | ["cbig", n, ds] => match nat? n, nats? ds with
+    | some n, some ds =>
+      if constsOk n ds then
+        (s, showRat (C ds) ++ ";" ++ showRat (Cprime n ds) ++ ";" ++ showRat (Csecond n ds))
+      else (s, "nonfinite")
+    | _, _ => (s, "bad-op")
+  | ["kap", n, ds] => match nat? n, nats? ds with
+    | some n, some ds =>
+      if ds.all (fun d => decide (2 ≤ d) && decide (d ≤ n)) then (s, showRats (ds.map (kappaProd n))) else (s, "rej")
     | _, _ => (s, "bad-op")
   | ["expdeg", ds] => match nats? ds with
     | some ds => if constsOk s.N ds then
